@@ -198,6 +198,16 @@ CLAIMED = {
              "anonymous scripts and shared-library version requirements are outside the generated inputs.",
         technique="Coq proof (induction over the node list relating a reverse scan to GNU ld's forward scan) + model/implementation and spec/GNU-ld correspondence on generated scripts",
         design_ref="DESIGN.md §3 C32"),
+    "C09": dict(
+        text="S1: Gallina model of the relative dynamic relocations wild emits (per address site: a RELR address entry with the link-time address stored in place, or a RELA R_*_RELATIVE entry with "
+             "the word zeroed; the RELR/RELA choice as made at layout time and at write time) and of the loader (RELA relative and the generic RELR decoder with bitmap entries). Theorems: for every "
+             "set of sites (odd or even places, any alignments), with or without RELR, and every base, the loaded image holds target + base at every site and is unchanged elsewhere; every site is "
+             "covered by exactly one dynamic relocation and every RELR entry is the even address of a site; the layout-time and write-time choices coincide (C23's obligation for these tables).",
+        note="Trusted: the loader model is a specification; the tie runs an independent loader (RELA + RELR with bitmaps) on wild's real -pie/-shared outputs at two bases and checks every generated "
+             "pointer word (functions, data, linker-defined symbols, addends) = target + base, coverage exactly once, RELR entries even / writable / holding an in-image address, and the RELR/RELA "
+             "choice per relative site against the model. One defect repaired (fix: same RELR/RELA rule when sizing and when writing).",
+        technique="Coq proof (invariant over the emission fold; loader lemmas for RELA and address-only RELR tables) + an independent loader run on real outputs",
+        design_ref="DESIGN.md §3 C09"),
     "C37": dict(
         text="S1 on top of C03: DT_NEEDED = the shared libraries in the verified loaded set, in command-line order. Theorems: listed iff loaded shared library; every --no-as-needed library listed; "
              "an --as-needed library listed only if some loaded file non-weakly references a name whose first definition it is; strictly increasing command-line positions (each at most once).",
